@@ -14,14 +14,17 @@ CONFIG = {'gen': ['SmbCommands'],
              'as modelled in SmbIR/SmbCmd',
              'nested wire types through the C06 models (Manticore/Model/C06.lean, SmbCodecs adapters)'],
  'technique': 'Lean 4: kernel-decided Guarded predicate (every slice/index dominated by an implying length check) over unmarshal programs '
-              'regenerated from /repo on every run; totality theorems of the hand models of the other decoders; differential '
+              'regenerated from /repo on every run, with a soundness proof of the predicate for the IR semantics (abstract '
+              'interpretation: Known interpreted at run-time states); totality theorems of the hand models of the other decoders; differential '
               'truncation/corruption campaign against the real code',
  'level_text': 'The kernel decides on the unmarshal programs regenerated from /repo that in all 115 command structures every slice and '
                'index expression is dominated by a length check that implies it (smb_all_commands_guarded; a dropped or weakened guard '
                'makes the theorem fail and the campaign then looks for the panicking input); the envelope split never panics '
                '(smb_split_total); the other decoding entry points are proved total on their own models (re-exported theorems). On every '
                'run every truncation and single-byte boundary corruption of valid encodings is fed to the real Unmarshal of all 114 '
-               "commands and compared with the model's outcome. PARTIAL: soundness of Guarded w.r.t. the IR semantics (Guarded c -> runU c "
-               '… != panic) is … (see Props/C07.lean).',
+               "commands and compared with the model's outcome. The static predicate is proved sound for the IR semantics "
+               '(guarded_sound: Guarded c -> runU C c … != panic for all streams, capacities, word counts and field values, given honest '
+               'nested decoders; std_honest: the codec table in use is honest, from per-type totality/boundedness theorems of the C06 '
+               'decoders), hence smb_decode_total: decodeCmd std c env0 data != panic for each of the 115 commands and every input.',
  'level_note': 'Trusted: Lean kernel; axioms propext, Classical.choice, Quot.sound; extractor and IR semantics tied by differential '
                'testing (bounded); Go runtime behaviour (stack depth, allocation) is observed, not modelled.'}
